@@ -28,7 +28,7 @@ MUTANTS = [
     ('ortho_left-no-overwrite (harmless)', F, "self.ranks[i + 1]), full_matrices=False, overwrite_a=True,\n                                check_finite=False)\n                        except:", "self.ranks[i + 1]), full_matrices=False, overwrite_a=False,\n                                check_finite=False)\n                        except:", 'TT.ortho_left', None),
     ('conj-renamed-local (harmless)', F, 'tt_conj', 'tt_c', 'TT.conj', None),
     ('transpose-renamed-local (harmless)', F, 'tt_transpose', 'tt_t', 'TT.transpose', None),
-    ('als-guess-not-copied', 'scikit_tt/solvers/sle.py', '    solution = initial_guess.copy()\n\n    # define stacks\n    stack_left_op   = [None] * operator.order\n    stack_left_rhs  = [None] * operator.order\n    stack_right_op  = [None] * operator.order\n    stack_right_rhs = [None] * operator.order\n\n    # construct right stacks for the left- and right-hand side\n    for i in range(operator.order - 1, -1, -1):', '    solution = initial_guess\n\n    # define stacks\n    stack_left_op   = [None] * operator.order\n    stack_left_rhs  = [None] * operator.order\n    stack_right_op  = [None] * operator.order\n    stack_right_rhs = [None] * operator.order\n\n    # construct right stacks for the left- and right-hand side\n    for i in range(operator.order - 1, -1, -1):', 'fn:als', ''),
+    ('als-guess-not-copied', 'scikit_tt/solvers/sle.py', '    solution = initial_guess.copy().ortho_right()\n\n    # define stacks\n    stack_left_op   = [None] * operator.order\n    stack_left_rhs  = [None] * operator.order\n    stack_right_op  = [None] * operator.order\n    stack_right_rhs = [None] * operator.order\n\n    # construct right stacks for the left- and right-hand side\n    for i in range(operator.order - 1, -1, -1):', '    solution = initial_guess.ortho_right()\n\n    # define stacks\n    stack_left_op   = [None] * operator.order\n    stack_left_rhs  = [None] * operator.order\n    stack_right_op  = [None] * operator.order\n    stack_right_rhs = [None] * operator.order\n\n    # construct right stacks for the left- and right-hand side\n    for i in range(operator.order - 1, -1, -1):', 'fn:als', ''),
     ('sle-left-stack-reads-slot-i', 'scikit_tt/solvers/sle.py', 'stack_left_op[i] = np.tensordot(stack_left_op[i - 1], solution.cores[i - 1][:, :, 0, :], axes=(0, 0))', 'stack_left_op[i] = np.tensordot(stack_left_op[i], solution.cores[i - 1][:, :, 0, :], axes=(0, 0))', 'fn:__construct_stack_left_op', 'not-None'),
     ('sle-micro-matrix-wrong-transpose', 'scikit_tt/solvers/sle.py', 'micro_op = micro_op.transpose([1, 2, 5, 0, 3, 4]).reshape(\n        solution.ranks[i] * operator.row_dims[i] * solution.ranks[i + 1],', 'micro_op = micro_op.transpose([1, 2, 5, 0, 3, 4]).reshape(\n        solution.ranks[i] * operator.row_dims[i] * solution.ranks[i],', 'fn:__construct_micro_matrix_als', 'reshape-size'),
     ('mals-backward-right-stack-off-by-one', 'scikit_tt/solvers/sle.py', '            __construct_stack_right_op(i + 1, stack_right_op, operator, solution)', '            __construct_stack_right_op(i, stack_right_op, operator, solution)', 'fn:mals', 'pre['),
